@@ -126,6 +126,18 @@ def _scope(run, P):
         if isinstance(n, ast.Call) and isinstance(n.func, ast.Attribute) \
                 and n.func.attr == "issubset" and n.args and isinstance(n.args[0], ast.Name):
             universes.add(n.args[0].id)
+    # every local table of statement ids (a set / dict built from <statement>.id) counts too,
+    # however it is consulted ('in', .get(), [...])
+    for n in ast.walk(f.node):
+        if isinstance(n, ast.Assign) and len(n.targets) == 1 and isinstance(n.targets[0], ast.Name) \
+                and isinstance(n.value, (ast.SetComp, ast.DictComp, ast.ListComp, ast.GeneratorExp, ast.Call)):
+            v = n.value
+            if isinstance(v, ast.Call) and v.args and isinstance(v.args[0], (ast.SetComp, ast.ListComp,
+                                                                                ast.GeneratorExp)):
+                v = v.args[0]
+            key = v.key if isinstance(v, ast.DictComp) else getattr(v, "elt", None)
+            if isinstance(key, ast.Attribute) and key.attr == "id":
+                universes.add(n.targets[0].id)
     if not universes:
         raise AnalysisError("verify_all_dependencies_exist: membership universe not found")
     for u in sorted(universes):
@@ -158,10 +170,12 @@ def _scope(run, P):
             comp = n.value
             if isinstance(comp, ast.Call) and dotted(comp.func) in ("set", "frozenset") and comp.args:
                 comp = comp.args[0]
-            ok = owner is not None and isinstance(comp, (ast.SetComp, ast.GeneratorExp, ast.ListComp)) \
+            elt_ = comp.key if isinstance(comp, ast.DictComp) else getattr(comp, "elt", None)
+            ok = owner is not None and isinstance(comp, (ast.SetComp, ast.GeneratorExp, ast.ListComp,
+                                                         ast.DictComp)) \
                 and len(comp.generators) == 1 \
                 and dotted(comp.generators[0].iter) == f"{owner[1]}.statements" \
-                and isinstance(comp.elt, ast.Attribute) and comp.elt.attr == "id"
+                and isinstance(elt_, ast.Attribute) and elt_.attr == "id"
             run.ob("C10.scope", f, n, ok,
                    why="the consumers resolve a dependency id among the statements of "
                        "the same phase, so the verifier must test against exactly "
@@ -532,6 +546,43 @@ def _switch(run, P):
     run.ob("C10.switch", f, site, ok,
            construct="for every phase, every SwitchPhase: next_phase not in phases -> error",
            why="a switch to a missing phase raises KeyError at run time")
+    # the switches no statement makes: the default successor of every phase and the phase
+    # the method starts in (both consumers index the phase map with them)
+    from .util import path_conditions
+    vc = P.func(f"{MOD}.verify_code")
+    code = vc.params[0]
+
+    def reports(fn, tests):
+        for x in ast.walk(fn.node):
+            if isinstance(x, ast.Call) and isinstance(x.func, ast.Attribute) \
+                    and x.func.attr in ("append", "extend") and isinstance(x.func.value, ast.Name):
+                st_ = None
+                for s_ in ast.walk(fn.node):
+                    if isinstance(s_, ast.Expr) and s_.value is x:
+                        st_ = s_
+                if st_ is None:
+                    continue
+                for t, v in path_conditions(fn.node, st_):
+                    if v and any(t == want for want in tests):
+                        return x
+                    if not v and any(t == want.replace(" not in ", " in ") for want in tests):
+                        return x
+        return None
+
+    dflt = None
+    if loops:
+        lp, var = loops[0]
+        pv = var if isinstance(lp.target, ast.Name) else (
+            lp.target.elts[1].id if isinstance(lp.target, ast.Tuple) else var)
+        dflt = reports(f, [f"{pv}.next_phase not in {phases}"])
+    run.ob("C10.switch", f, dflt if dflt is not None else f.node, dflt is not None,
+           construct="for every phase: its default successor not in phases -> error",
+           why="the switch at the end of every step that no statement makes: a phase whose "
+               "next_phase names no phase is accepted and the next step fails with KeyError")
+    init = reports(vc, [f"{code}.initial_phase not in {code}.phases"])
+    run.ob("C10.switch", vc, init if init is not None else vc.node, init is not None,
+           construct="the initial phase not in phases -> error",
+           why="the first step indexes the phase map with it")
 
 
 def check(run, P):
